@@ -11,6 +11,7 @@ ID="${1:?property id}"; TIER="${2:-quick}"; shift; shift || true
 REPO="${VERIF_REPO:-/repo}"
 BIN="$VERIF_DIR/.build/bin"
 FT_IDS="C04 C06 C12 C14"   # properties with case groups on the virtual clock
+I32_IDS="C05 C08"          # properties with case groups for a platform where int has 32 bits (GOARCH=386 worker)
 mkdir -p "$BIN"
 MODFLAG=""
 if [ "$REPO" != "/repo" ]; then
@@ -38,6 +39,9 @@ case "$ID" in
     case " $FT_IDS " in *" $ID "*)
       # workers on the Go runtime virtual clock (faketime tag; needs CGO_ENABLED=0, with cgo the clock never advances): long real pauses and hour-long playback in no time
       (cd harness && CGO_ENABLED=0 go build $MODFLAG -tags "verif faketime" -o "$BIN/vcheck-ft" ./cmd/vcheck) || { echo "INCONCLUSIVE property=$ID reason=build of the faketime worker failed"; exit 2; } ;;
+    esac
+    case " $I32_IDS " in *" $ID "*)
+      (cd harness && GOARCH=386 CGO_ENABLED=0 go build $MODFLAG -tags verif -o "$BIN/vcheck-386" ./cmd/vcheck) || { echo "INCONCLUSIVE property=$ID reason=build of the 32-bit worker failed"; exit 2; } ;;
     esac
     exec "$BIN/vcheck" -property "$ID" -tier "$TIER" "$@"
     ;;
